@@ -1345,12 +1345,26 @@ def main():
         if 'only-with-several-annotations-together' in key:
             return 'several-string-annotations-together'
         if 'after-definition' in key:
-            return ('dotted' if 'dotted' in key else 'bare') + ':differs-after-definition'
-        fam = 'dotted' if ':dotted:' in key else 'bare' if ('bare:' in key) else None
+            fam = 'dotted' if 'dotted' in key else 'alias' if 'alias' in key else 'bare'
+            sym = ('forward-reference-exception' if key.startswith('still-failing') or 'forward-reference-exception' in key
+                   else 'accepts-same-named-impostor' if 'unrelated-class' in key
+                   else 'accepts-nonconforming' if 'accepted-what' in key
+                   else 'rejects-conforming' if 'rejected-what' in key else 'raises-other')
+            return f'{fam}:differs-after-definition:{sym}'
+        fam = 'dotted' if ':dotted:' in key else 'alias' if 'alias-bare:' in key else 'bare' if ('bare:' in key) else None
         if fam and head:
-            if fam == 'bare' and head == 'head-class-under-construction' and 'forward-reference-exception' in key:
-                return 'bare:head-class-under-construction:forward-reference-exception'
-            return f'{fam}:{head}'
+            # the symptom stays in the key: one mechanism that today only raises the forward-reference exception or
+            # accepts a same-named impostor must not hide a change that makes it reject conforming objects
+            sym = key.rsplit(':', 1)[-1]
+            if sym.startswith('forward-reference-exception'):
+                sym = 'forward-reference-exception'
+            elif sym.startswith('accepted-what-evaluated-rejects'):
+                sym = 'accepts-same-named-impostor' if 'unrelated-class' in sym else 'accepts-nonconforming'
+            elif sym.startswith('rejected-what-evaluated-accepts'):
+                sym = 'rejects-conforming'
+            elif sym.startswith('raised-'):
+                sym = 'raises-' + sym[len('raised-'):]
+            return f'{fam}:{head}' + (':' + sym if sym else '')
         return key
 
     def _violation(key, what, stream, index, witness=None):
